@@ -161,6 +161,19 @@ def deferred_obligation(ctx):
                         if isinstance(n, _a.Lambda) and \
                                 n.lineno == ebk[2]:
                             oke = '_failed' in _a.unparse(n)
+                if kind(ebk) in ('bound', 'funcref', 'func'):
+                    # a method / function of its own: every path of it hands
+                    # the failure it received to the failure resolver
+                    efi = prog.all_funcs.get(ebk[2] if kind(ebk) == 'bound'
+                                             else ebk[1])
+                    if efi is not None:
+                        eps = [q for q in Interp(prog, exc_edges=False).run(
+                            efi) if q.outcome != 'raise']
+                        prm = [a for a in efi.params() if a != 'self'][:1]
+                        oke = bool(eps) and bool(prm) and all(any(
+                            kind(c2[2]) == 'attr' and c2[2][2] == '_failed'
+                            and c2[3] == (('param', prm[0]),)
+                            for c2 in q.calls()) for q in eps)
                 ok_hello = okc and oke and contains(
                     c[2][1], lambda x: x == C('Hello'))
     ctx.ob('C09.D1', ca.qualname, 'hello-resolves-connect', ok_hello,
@@ -429,6 +442,19 @@ def entry_state_is_per_entry(ctx):
     it is read or mutated; only the result list accumulates."""
     prog = ctx.prog
     fi = prog.func('endpoints.getDBusEndpoints')
+    is_entry_loop = lambda n: isinstance(n, ast.For) and \
+        isinstance(n.iter, ast.Call) and \
+        isinstance(n.iter.func, ast.Attribute) and \
+        n.iter.func.attr == 'split' and n.iter.args and \
+        isinstance(n.iter.args[0], ast.Constant) and \
+        n.iter.args[0].value == ';'
+    if not any(is_entry_loop(n) for n in ast.walk(fi.node)):
+        # split into a wrapper and a core: the loop lives in a helper
+        from .common import helpers_of
+        for g in helpers_of(prog, fi):
+            if any(is_entry_loop(n) for n in ast.walk(g.node)):
+                fi = g
+                break
     returned = {n.value.id for n in ast.walk(fi.node)
                 if isinstance(n, ast.Return) and
                 isinstance(n.value, ast.Name)}
